@@ -20,6 +20,8 @@ impl<'a> Iterator for Tokenizer<'a> {
     type Item = Token;
 
     fn next(&mut self) -> Option<Token> {
+        #[cfg(feature = "verif_hooks")]
+        crate::verif_hooks::tick(crate::verif_hooks::Site::TokNext);
         let current_char = self.expr.next();
 
         match current_char {
@@ -46,6 +48,8 @@ impl<'a> Iterator for Tokenizer<'a> {
                     let mut number = "0".to_string();
                     number.push(current_char?);
                     while let Some(next_char) = self.expr.peek() {
+                        #[cfg(feature = "verif_hooks")]
+                        crate::verif_hooks::tick(crate::verif_hooks::Site::TokScan);
                         if next_char.is_ascii_digit() {
                             number.push(self.expr.next()?);
                         } else {
@@ -111,6 +115,8 @@ impl<'a> Iterator for Tokenizer<'a> {
                 let mut floatting = false;
                 let mut number = current_char?.to_string();
                 while let Some(next_char) = self.expr.peek() {
+                    #[cfg(feature = "verif_hooks")]
+                    crate::verif_hooks::tick(crate::verif_hooks::Site::TokScan);
                     if floatting && next_char == &'.' {
                         break;
                     } else if next_char.is_ascii_digit() || next_char == &'.' {
